@@ -10,7 +10,9 @@ from fractions import Fraction
 
 PROPERTY = 'C20'
 LEVEL = 'exploration'
-RULE = ('Part A: every stage-weight vector of the stated grids (all compositions of 1 in hundredths for n<=3 '
+RULE = ('Part C: a real StatusMonitor asks the REAL Controller (running under the controlled runtime) at every choice point of '
+        '3-stage executions with overlapping task durations (thorough: plus every schedule with one boundary deviation); '
+        'Part A: every stage-weight vector of the stated grids (all compositions of 1 in hundredths for n<=3 '
         '[n<=4 thorough], thousandths for n<=2, k/m rationals m<=12, uniform 1/n for n<=12, 4-decimal near misses, '
         'missing weights at every subset of positions, malformed values at every position) is loaded with '
         'FlowIRConcrete; Part B: a real StatusMonitor per (n, weight vector of a reduced family) and every '
@@ -84,7 +86,11 @@ def weight_vectors(thorough):
         for n in (2, 3) + ((4,) if thorough else ()):
             for c in compositions(m, n):
                 yield 'rational', tuple(float(Fraction(x, m)) for x in c)
-    for n in range(1, 13):
+    for n in list(range(1, 13)) + list(range(13, 131)):
+        if n > 12:
+            yield 'all-missing', tuple(['MISSING'] * n)
+            yield 'not-summing', tuple([0.5] * n)
+            continue
         yield 'uniform', tuple([1.0 / n] * n)
         yield 'uniform-int', tuple([1] + [0] * (n - 1))
         yield 'all-missing', tuple(['MISSING'] * n)
@@ -156,32 +162,74 @@ class FakeStage:
         return getattr(self._s, n)
 
 
+class _Lock:
+    def __init__(self, owner):
+        self.owner = owner
+        self.depth = 0
+
+    def __enter__(self):
+        self.depth += 1
+        return self
+
+    def __exit__(self, *a):
+        self.depth -= 1
+
+    def acquire(self, *a, **k):
+        self.depth += 1
+        return True
+
+    def release(self):
+        self.depth -= 1
+
+
 class FakeController:
-    """Answers what StatusMonitor.CheckStatus asks a Controller."""
+    """Answers what StatusMonitor.CheckStatus asks a Controller. Optionally ONE state transition (a stage in transit becomes
+    finished) happens when the number of calls made so far reaches `transition_at` — but, like the real controller, never
+    while comp_lock is held by the caller."""
 
     def __init__(self, exp):
-        import threading
         self.exp = exp
-        self.comp_lock = threading.RLock()
+        self.comp_lock = _Lock(self)
         self.current = 0
         self.in_transit = []
         self.finished = []
         self.progress = {}
+        self.calls = 0
+        self.transition_at = None
+        self.transition_stage = None
+        self.transition_done = False
+
+    def _tick(self):
+        if self.transition_at is not None and not self.transition_done and self.calls >= self.transition_at \
+                and self.comp_lock.depth == 0:
+            s = self.transition_stage
+            if s in self.in_transit:
+                self.in_transit.remove(s)
+            if s not in self.finished:
+                self.finished.append(s)
+            self.progress[s] = 1.0
+            self.transition_done = True
+        self.calls += 1
 
     def stage(self):
+        self._tick()
         return self.exp._stages[self.current]
 
     def stageState(self, stage):
         import experiment.model.codes
+        self._tick()
         return experiment.model.codes.RUNNING_STATE
 
     def get_stages_in_transit(self):
+        self._tick()
         return list(self.in_transit)
 
     def get_stages_finished(self):
+        self._tick()
         return list(self.finished)
 
     def get_stage_status(self, idx):
+        self._tick()
         return self.progress.get(idx)
 
     def generate_status_report_for_nodes(self, *a, **k):
@@ -291,10 +339,132 @@ def worker_b(col, item, tier, seed):
                         col.fail(c, why[0], {'total': total, 'stageWeights': list(sm.stageWeights)}, sig=why[1])
                     else:
                         col.outcome('B:progress=1' if abs(total - 1) <= EPS_OUT else ('B:progress=0' if abs(total) <= EPS_OUT else 'B:progress-in-(0,1)'))
+        # one transition (a stage in transit finishes) landing at every position of the monitor's conversation with the controller
+        if n >= 2 and not r:
+            for cur in range(n):
+                for s in range(n):
+                    if s == cur:
+                        continue
+                    for p0 in (0.0, 0.5, 1.0):
+                        j = 0
+                        while True:
+                            ctrl.current = cur
+                            ctrl.in_transit = [s]
+                            ctrl.finished = [o for o in range(n) if o not in (cur, s)]
+                            ctrl.progress = {cur: 1.0, s: p0}
+                            ctrl.calls = 0
+                            ctrl.transition_at, ctrl.transition_stage, ctrl.transition_done = j, s, False
+                            check(False)
+                            total = exp.statusFile.totalProgress()
+                            col.evaluated()
+                            col.count('transition_positions')
+                            c = dict(case0, current=cur, transition={'stage': s, 'at_call': j, 'progress_before': p0})
+                            if not isinstance(total, (int, float)) or not math.isfinite(total) or total < -EPS_OUT or total > 1 + EPS_OUT:
+                                col.outcome('B:FAIL:transition-progress-range')
+                                col.fail(c, 'a stage finishing while the monitor computes the status gives total progress %r (outside [0,1])' % (total,),
+                                         {'total': total, 'stageWeights': list(sm.stageWeights)}, sig='B:transition-progress-range')
+                            else:
+                                col.outcome('B:transition-ok')
+                            done = ctrl.transition_done
+                            j += 1
+                            if not done or j > 60:
+                                break
+        ctrl.transition_at = None
         col.sample(dict(case0, stageWeights=list(sm.stageWeights)))
 
 
+# ------------------------------------------------------------------ part C: the real Controller answers the monitor
+def c_docs():
+    from verif.vsched.ctl import comp
+    docs = []
+    # A2 is independent of everything else: when it is slow, the later stages run to completion while stage 0 is still
+    # the current stage (the controller schedules the whole DAG; stages in transit / finished are what the monitor asks for)
+    for weights in ([0.2, 0.3, 0.5], [0.5, 0.25, 0.25], None):
+        d = {'components': [comp('A'), comp('A2'), comp('B', ['stage0.A:ref'], stage=1), comp('B2', ['stage0.A:ref'], stage=1),
+                            comp('C', ['stage1.B:ref', 'stage1.B2:ref'], stage=2)]}
+        if weights:
+            d['status-report'] = {i: {'stage-weight': w} for i, w in enumerate(weights)}
+        docs.append(d)
+    return docs
+
+
+def worker_c(col, item, tier, seed):
+    """A real StatusMonitor asks the REAL Controller (under the controlled runtime) at every choice point of an execution."""
+    import experiment.runtime.monitor
+    import experiment.runtime.output
+    from verif.vsched import harness as h
+    di, durs, prefix = item
+    doc = c_docs()[di]
+    script = {'stage0.A': [['Success', durs[0]]], 'stage0.A2': [['Success', durs[1]]], 'stage1.B': [['Success', durs[2]]],
+              'stage1.B2': [['Success', durs[3]]], 'stage2.C': [['Success', 0.0]]}
+    scn = h.Scenario(doc, script=script)
+    h.install()
+    h.H.on_launch = None
+    holder = {}
+
+    def setup(exp, controller):
+        calls = []
+        orig = experiment.runtime.monitor.CreateMonitor
+        experiment.runtime.monitor.CreateMonitor = lambda interval, action, cancelEvent=None, name=None, **kw: (calls.append(action) or (lambda: None))
+        try:
+            sm = experiment.runtime.output.StatusMonitor(exp, report_components=False)
+            sm.run(controller)
+        finally:
+            experiment.runtime.monitor.CreateMonitor = orig
+        holder['check'] = calls[0]
+        holder['exp'] = exp
+        holder['sm'] = sm
+
+    def probe(rt, controller, x):
+        if controller.comp_lock._owner is not None or controller.stage() is None:
+            return
+        holder['check'](False)
+        total = holder['exp'].statusFile.totalProgress()
+        col.evaluated()
+        col.count('monitor_probes')
+        states = tuple(sorted((n, controller.get_compstate(n).state, n in controller.comp_done) for n in controller.graph.nodes))
+        col.state(states)
+        all_done = all(st == 'finished' and d for n, st, d in states)
+        ok = isinstance(total, (int, float)) and math.isfinite(total) and -EPS_OUT <= total <= 1 + EPS_OUT
+        if ok and all_done and abs(total - 1.0) > EPS_OUT:
+            ok = False
+        if not ok:
+            col.outcome('C:FAIL')
+            col.fail({'part': 'C', 'doc': di, 'durations': durs, 'choices': prefix, 'step': len(x.points)},
+                     'the status monitor asked the real controller at step %d and reported total progress %r (in transit %r, finished %r, all finished: %s)' % (
+                         len(x.points), total, controller.get_stages_in_transit(), controller.get_stages_finished(), all_done),
+                     {'total': total, 'states': [list(t) for t in states], 'weights': list(holder['sm'].stageWeights)}, sig='C:progress-from-real-controller')
+        else:
+            col.outcome('C:progress=1' if abs(total - 1) <= EPS_OUT else ('C:progress=0' if abs(total) <= EPS_OUT else 'C:progress-in-(0,1)'))
+
+    x = h.execute(scn, prefix, want_fps=False, setup=setup, probe=probe)
+    col.traces += 1
+    col.transitions += x.steps
+    col.nontriv({'part': 'C', 'doc': di, 'durs': durs, 'prefix': prefix})
+    if x.result.get('ret') != 'done':
+        from verif.core.runner import HarnessError
+        raise HarnessError('C20 part C: execution did not finish: %r' % (x.result,))
+    if not prefix:
+        col.payload.append(('C', (di, tuple(durs)), x.points, x.alts))
+
+
 def run(ctx):
+    items = [(di, durs, []) for di in range(3) for durs in ([0, 0, 0, 0], [0, 40, 0, 0], [0, 40, 7, 0], [3, 12, 7, 0], [0, 40, 0, 9])]
+    ctx.pmap('verif.props.c20', 'worker_c', items, maxtasksperchild=4)
+    ctx.count('part_c_executions_canonical', len(items))
+    if ctx.thorough:
+        from verif.vsched.ctl import is_boundary
+        dev = []
+        for tag, key, pts, alts in ctx.payload:
+            if key[0] != 0:
+                continue
+            for i in range(len(pts)):
+                for a in range(1, pts[i]):
+                    if is_boundary(alts[i][a]):
+                        dev.append((key[0], list(key[1]), [0] * i + [a]))
+        ctx.count('part_c_executions_1_boundary_deviation', len(dev))
+        ctx.pmap('verif.props.c20', 'worker_c', dev, maxtasksperchild=20)
+    ctx.payload = []
     vs = list(weight_vectors(ctx.thorough))
     chunk = max(1, len(vs) // (ctx.jobs * 4) + 1)
     ctx.pmap('verif.props.c20', 'worker_a', [(i, min(len(vs), i + chunk)) for i in range(0, len(vs), chunk)])
@@ -313,6 +483,10 @@ def run(ctx):
 
 
 def replay(ctx, case):
+    if case['part'] == 'C':
+        worker_c(ctx, (case['doc'], case['durations'], case['choices']), ctx.tier, ctx.seed)
+        ctx.payload = []
+        return
     if case['part'] == 'A':
         check_part_a(ctx, from_jsonable(case['weights']), case.get('family', 'replay'))
     else:
